@@ -275,8 +275,9 @@ def stmt(draw, depth, ctx):
                 else:
                     labels.append(["case", vals[i]]); i += 1
         else:
-            e = draw(sexpr(1))
-            vals = sorted(set(draw(st.lists(st.sampled_from(SBOUND + ["b", "ab", "hello"]), min_size=1, max_size=6))))
+            vals = sorted(set(draw(st.lists(st.sampled_from(SBOUND + ["b", "ab", "hello", "m" * 120, "k" * 700, "q" * 300]), min_size=1, max_size=8))))
+            # the subject is often one of the labels (the table is searched by string address: every label has to be found)
+            e = draw(st.one_of(sexpr(1), st.sampled_from(vals).map(lambda v: lit("S", v)), st.sampled_from(vals).map(lambda v: ["bin", "S", "+", lit("S", v[:1]), lit("S", v[1:])])))
             labels = [["case", v] for v in vals]
         hasdef = draw(st.booleans())
         if hasdef:
